@@ -114,3 +114,8 @@ def mk_contract(c: dict, simplify: bool = True):
 
 def un_contract(c) -> dict:
     return {"a": un_tl(c.a), "g": un_tl(c.g), "ins": [str(x) for x in c.inputvars], "outs": [str(x) for x in c.outputvars]}
+
+
+def mk_key(t: dict):
+    """pacti's term equality: same variable set, equal coefficients, equal constant (zeros dropped)"""
+    return (tuple(sorted((v, float(c)) for v, c in t["c"].items() if c != 0)), float(t["k"]))
